@@ -13,8 +13,9 @@
 (* PART 1, the protocol.  A case is a group of n jobs of one task; job i   *)
 (* has argument id i and evaluation hash id i (distinct calls).  What the  *)
 (* task does is a function of its arguments: beh[a] \in {"ok", "raise",    *)
-(* "unp"} ("unp": raises an exception that cannot be pickled).  The world  *)
-(* is a file system fs: file name -> content,                              *)
+(* "unp", "rt"} ("unp": raises an exception that cannot be pickled; "rt":  *)
+(* raises one that pickles but whose pickle cannot be loaded again).  The  *)
+(* world is a file system fs: file name -> content,                        *)
 (*   names     <<"ain",0>> <<"aout",0>> <<"aerr",0>> <<"ahash",0>>  array  *)
 (*             <<"in",i>>  <<"out",i>>  <<"err",i>>                per job *)
 (*   contents  [k, v]: "absent" | "arglist" <<a1..an>> | "args" <<a>> |    *)
@@ -23,6 +24,7 @@
 (*             "junk" (an output that is not a valid value) |              *)
 (*             "error" <<a, g>> (pickled exception of f(args a); g = 1:    *)
 (*             replaced by Exception(repr(e)) because e does not pickle;   *)
+(*             g = 2: pickled as it is although the pickle does not load;  *)
 (*             a = 0: somebody else's error, a stale file)                 *)
 (* Actions: Submit (the executor writes the inputs), Work(i) (the remote   *)
 (* container runs `redun oneshot` for array index i - 1 / for job i),      *)
@@ -35,6 +37,8 @@ EXTENDS Naturals, Integers, Sequences, FiniteSets, TLC, SequencesExt, FiniteSets
 
 CONSTANT Variant    \* "asbuilt"; model-level negative controls: "index_off_by_one" "error_type_lost"
                     \* "stale_output_trusted" "hash_first_segment" "child_index_shift"
+CONSTANT Fixed      \* FALSE: as built.  TRUE: the named deviation DevUnreadableError is repaired (oneshot
+                    \* checks that the pickled error loads before it trusts it, else takes its fallback)
 
 Cn(k, v) == [k |-> k, v |-> v]
 Absent == Cn("absent", <<>>)
@@ -73,21 +77,28 @@ DoWork(c, fs, i) ==
      ELSE CASE c.beh[a] = "ok" -> [fs2 EXCEPT ![<<"out", outj>>] = Cn("result", <<a>>)]
             [] c.beh[a] = "raise" -> [fs2 EXCEPT ![<<"err", errj>>] = Cn("error", <<a, 0>>)]
             [] c.beh[a] = "unp" -> [fs2 EXCEPT ![<<"err", errj>>] = Cn("error", <<a, 1>>)]
+            \* DevUnreadableError: only the dump is guarded, so an error whose pickle does not load is
+            \* written as it is
+            [] c.beh[a] = "rt" -> [fs2 EXCEPT ![<<"err", errj>>] = Cn("error", <<a, IF Fixed THEN 1 ELSE 2>>)]
 
 \* parse_job_result, then parse_job_error: <<status, argument id the value belongs to, generic flag>>
+\* (an error file that does not load is reported as ScratchError: nobody's exception)
+ReadErr(err) == IF err.v[2] = 2 THEN <<"scratcherr", 0, 0>>
+                ELSE <<"err", err.v[1], IF Variant = "error_type_lost" THEN 1 ELSE err.v[2]>>
 DoParse(fs, i) ==
   LET out == fs[<<"out", i>>]
       err == fs[<<"err", i>>]
   IN IF out.k = "result" THEN <<"ok", out.v[1], 0>>
-     ELSE IF out.k = "junk" THEN (IF err.k = "error" THEN <<"err", err.v[1], err.v[2]>> ELSE <<"junkvalue", 0, 0>>)
-     ELSE IF err.k = "error"
-          THEN <<"err", err.v[1], IF Variant = "error_type_lost" THEN 1 ELSE err.v[2]>>
+     ELSE IF out.k = "junk" THEN (IF err.k = "error" THEN ReadErr(err) ELSE <<"junkvalue", 0, 0>>)
+     ELSE IF err.k = "error" THEN ReadErr(err)
           ELSE <<"missing", 0, 0>>
 
 \* the local call
 Local(c, i) == CASE c.beh[i] = "ok" -> <<"ok", i, 0>>
                  [] c.beh[i] = "raise" -> <<"err", i, 0>>
                  [] c.beh[i] = "unp" -> <<"err", i, 1>>      \* documented fallback: Exception(repr(e))
+                 [] c.beh[i] = "rt" -> <<"err", i, 1>>       \* the same fallback is the best that can be had
+DevUnreadableError(c, i) == ~Fixed /\ c.beh[i] = "rt"
 
 WellFormedCase(c) ==
   /\ c.n \in 1..Len(c.beh) /\ Len(c.beh) = c.n /\ Len(c.stale) = c.n
@@ -117,6 +128,9 @@ Next == Submit \/ \E i \in 1..cas.n : Work(i) \/ Parse(i)
 
 \* the law: what the executor reads for job i is what calling the task locally gives
 OutcomeOK == \A i \in 1..cas.n : parsed[i] # <<>> => parsed[i] = Local(cas, i)
+\* ... which the code as built guarantees except through the named deviation
+OutcomeUnlessDev ==
+  \A i \in 1..cas.n : parsed[i] # <<>> => (parsed[i] = Local(cas, i) \/ DevUnreadableError(cas, i))
 \* element i reads args[i] and writes out[i] / err[i], nothing else
 Isolation ==
   [][act'[1] = "work" => \A f \in DOMAIN fs : fs'[f] # fs[f] => f \in {<<"out", act'[2]>>, <<"err", act'[2]>>}]_vars
